@@ -1,9 +1,36 @@
 import GuppyVerif.Gen.C20GateTable
 import GuppyVerif.Spec.C20
-/-! # C20 — Quantum operations implement their documented gates (partial) -/
+import GuppyVerif.Lemmas.C20
+import Mathlib.Tactic.FieldSimp
+import Mathlib.Tactic.Ring
+import Mathlib.Tactic.NormNum
+/-! # C20 — Quantum operations implement their documented gates  (partial)
+
+Full statement (properties.jsonl): for every circuit built from the quantum standard library the
+emulated state equals the product of the documented gate matrices applied to the listed qubits in
+program order, up to global phase; measurement, reset and project_z act as projective Z-basis
+operations.  The simulator and the semantics of the `tket.*` ops live outside the repository, so
+what is proved here is the part the repository decides:
+
+* `binding_faithful` … `opaque_rows_listed`: over the gate table **regenerated from the source on
+  every run** (`Gen/C20GateTable.lean`), every documented function applies exactly the op of its
+  documented name, the caller's i-th qubit argument on the op's i-th port, for **all** actual argument
+  expressions; rotations get the angle's half turns unscaled (through
+  `tket.rotation.from_halfturns_unchecked`), qsystem gates get `float(angle)` = half turns × π;
+  the table and the fixed specification `Spec/C20.lean` cover each other.
+* `angle_*`: arithmetic on `angle` is arithmetic on the denoted radians (any field of characteristic 0).
+* `ch_decomposition`: the circuit `ch` is written as equals the controlled-Hadamard matrix.
+
+Only property theorems and non-vacuity examples live here. -/
+
 namespace GuppyVerif.Gate
 open Spec
 
+/-- **C20 (binding)**: for every documented single-op function `s` and *every* assignment `σ` of
+    caller expressions to its parameters, the call applies exactly one op — the documented one — with
+    `σ 0 … σ (nq-1)` (the qubits, in declaration order) on ports `0 … nq-1`, followed by its angles:
+    as rotations of the unscaled half turns (`std.quantum`), as `float(angle)` = half turns × π
+    (`std.qsystem`), or as the raw float (internal qsystem bindings). -/
 theorem binding_faithful :
     ∀ s ∈ Spec.gates, ∀ σ : Nat → Exp,
       emit Gen.table fuel s.modl s.name (actuals s.arity σ) = some (s.expected σ) := by
@@ -13,4 +40,153 @@ theorem binding_faithful :
     rfl | rfl | rfl | rfl | rfl | rfl | rfl | rfl | rfl | rfl | rfl | rfl | rfl | rfl | rfl | rfl |
     rfl | rfl | rfl | rfl | rfl | rfl | rfl | rfl <;> rfl
 
+/-- **C20 (signatures)**: each documented function declares its qubits first, then its angles, with
+    the documented kinds (so "port i" above is "the i-th declared qubit"). -/
+theorem signature_faithful :
+    ∀ s ∈ Spec.gates, (lookup Gen.table s.modl s.name).map (·.params) = some s.paramKinds := by
+  decide
+
+/-- **C20 (`ch`)**: `ch(control, target)` applies `Ry(target, −¼ half turn)`, `CZ(control, target)`,
+    `Ry(target, +¼ half turn)` in this order, for all actual arguments. -/
+theorem ch_binding (σ : Nat → Exp) :
+    ∃ e₁ e₂ : Exp,
+      emit Gen.table fuel "quantum" "ch" (actuals 2 σ) = some
+        [⟨"tket.quantum.Ry", [.val (σ 1), .rot e₁]⟩,
+         ⟨"tket.quantum.CZ", [.val (σ 0), .val (σ 1)]⟩,
+         ⟨"tket.quantum.Ry", [.val (σ 1), .rot e₂]⟩] ∧
+      e₁.halfturns? (1 : ℚ) = some (-1 / 4) ∧ e₂.halfturns? (1 : ℚ) = some (1 / 4) := by
+  refine ⟨.divN (.neg .pi) 4, .divN .pi 4, rfl, ?_, ?_⟩ <;>
+    simp [Exp.halfturns?]
+
+/-- **C20 (`zz_max`)**: `zz_max(q1, q2)` applies one `ZZPhase(q1, q2, ·)` whose float operand is
+    `float` of the angle of ½ half turn, i.e. π/2 radians. -/
+theorem zz_max_binding (σ : Nat → Exp) :
+    ∃ e : Exp,
+      emit Gen.table fuel "qsystem" "zz_max" (actuals 2 σ) = some
+        [⟨"tket.qsystem.ZZPhase", [.val (σ 0), .val (σ 1), .val (.toFloat e)]⟩] ∧
+      e.halfturns? (1 : ℚ) = some (1 / 2) := by
+  refine ⟨.divN .pi 2, rfl, ?_⟩
+  simp [Exp.halfturns?]
+
+/-- **C20 (coverage, spec → table)**: every function the specification documents exists in the source. -/
+theorem coverage_spec_to_table :
+    ∀ k ∈ Spec.allNames, (lookup Gen.table k.1 k.2).isSome = true := by
+  decide
+
+/-- **C20 (coverage, table → spec)**: every function found in `std/quantum` and `std/qsystem` is
+    accounted for by the specification (a newly added gate is noticed). -/
+theorem coverage_table_to_spec :
+    ∀ r ∈ Gen.table, (r.modl, r.name) ∈ Spec.allNames := by
+  decide
+
+/-- **C20 (no shadowing)**: no function is defined twice in a module and no name is specified twice
+    (`lookup` takes the first row; Python would take the last definition). -/
+theorem names_distinct :
+    (Gen.table.map fun r => (r.modl, r.name)).Nodup ∧ Spec.allNames.Nodup := by
+  decide
+
+/-- **C20 (opaque rows)**: the only bodies the translator could not read as straight-line code are
+    the ones the specification lists as unmodelled. -/
+theorem opaque_rows_listed :
+    ∀ r ∈ Gen.table, r.binding = .opaque → (r.modl, r.name) ∈ Spec.unmodelled := by
+  decide
+
+/-- the constant `std.angles.pi` recorded by the translator is one half turn -/
+theorem pi_constant_faithful : Gen.piHalfturnsNum = 1 ∧ Gen.piHalfturnsDen = 1 := by
+  decide
+
+/-! Non-vacuity: the specification is non-empty, a concrete swapped-argument call puts the caller's
+    qubits on the ports in the order passed, and a wrong arity is an error rather than a gate. -/
+example : Spec.gates.length = 38 ∧ Gen.table.length = 43 := by decide
+example : emit Gen.table fuel "quantum" "cx" [.p 1, .p 0] =
+    some [⟨"tket.quantum.CX", [.val (.p 1), .val (.p 0)]⟩] := by decide
+example : emit Gen.table fuel "quantum" "crz" [.p 1, .p 0, .mulN (.p 2) 2] =
+    some [⟨"tket.quantum.CRz", [.val (.p 1), .val (.p 0), .rot (.mulN (.p 2) 2)]⟩] := by decide
+example : emit Gen.table fuel "quantum" "cx" [.p 0] = none := by decide
+example : emit Gen.table fuel "quantum" "measure_array" [.p 0] = none := by decide
+
+/-- **C20 (`ch` as matrices)**: with the documented matrices of `ry` and `cz`, the circuit of
+    `ch_binding` read in program order (θ = half turns × π, so −π/4 first) is the controlled-Hadamard.
+    Blocks are over `control ⊕ target`. -/
+theorem ch_decomposition :
+    Mat.onTarget (Mat.Ry (Real.pi / 4)) * Mat.controlled Mat.Zm * Mat.onTarget (Mat.Ry (-(Real.pi / 4)))
+      = Mat.controlled Mat.Hm := by
+  simp only [Mat.onTarget, Mat.controlled, Matrix.fromBlocks_multiply, Matrix.mul_zero, Matrix.zero_mul,
+    add_zero, zero_add, Matrix.mul_one, Mat.ry_inv, Mat.ry_z_ry, Mat.rot_quarter_eq_H]
+
 end GuppyVerif.Gate
+
+namespace GuppyVerif.Angle
+open Spec
+
+set_option linter.unusedSectionVars false
+set_option linter.unnecessarySeqFocus false
+
+variable {K : Type} [Field K] [CharZero K] [DecidableEq K] (π : K)
+
+/-- **C20 (angle → float)**: `float(a)` is the angle in radians. -/
+theorem angle_float (a : Angle K) : toFloat π a = radians π a := by
+  unfold toFloat radians; field_simp
+
+/-- **C20 (angle +, −, unary −)**: addition, subtraction and negation of angles are addition,
+    subtraction and negation of the denoted radians. -/
+theorem angle_add_sub_neg (a b : Angle K) :
+    radians π (add a b) = radians π a + radians π b ∧
+    radians π (sub a b) = radians π a - radians π b ∧
+    radians π (neg a) = -radians π a := by
+  unfold radians add sub neg
+  refine ⟨?_, ?_, ?_⟩ <;> ring
+
+/-- **C20 (angle × float, float × angle)**: scaling an angle scales the radians. -/
+theorem angle_mul (a : Angle K) (x : K) :
+    radians π (mul a x) = radians π a * x ∧ radians π (rmul a x) = x * radians π a := by
+  unfold radians mul rmul
+  constructor <;> ring
+
+/-- **C20 (angle / float)**: dividing by a non-zero float divides the radians; dividing by zero is an
+    error of the exact model. -/
+theorem angle_truediv (a : Angle K) (x : K) :
+    (x ≠ 0 → ∃ c, truediv a x = some c ∧ radians π c = radians π a / x) ∧
+    (x = 0 → truediv a x = none) := by
+  constructor
+  · intro hx
+    refine ⟨⟨a.halfturns / x⟩, by simp [truediv, hx], ?_⟩
+    unfold radians; field_simp
+  · intro hx; simp [truediv, hx]
+
+/-- **C20 (float / angle)** as the code has it: `x / a` is the *angle* whose half turns are
+    `x / a.halfturns` (so `(x / a).halfturns * a.halfturns = x`); zero half turns is an error. -/
+theorem angle_rtruediv (a : Angle K) (x : K) :
+    (a.halfturns ≠ 0 → ∃ c, rtruediv a x = some c ∧ c.halfturns * a.halfturns = x) ∧
+    (a.halfturns = 0 → rtruediv a x = none) := by
+  constructor
+  · intro h
+    exact ⟨⟨x / a.halfturns⟩, by simp [rtruediv, h], by field_simp⟩
+  · intro h; simp [rtruediv, h]
+
+/-- **C20 (angle ==)**: angles compare equal exactly when they denote the same radians (π ≠ 0). -/
+theorem angle_eq_iff (hπ : π ≠ 0) (a b : Angle K) :
+    eq a b = true ↔ radians π a = radians π b := by
+  unfold eq radians
+  simp only [decide_eq_true_eq]
+  constructor
+  · intro h; rw [h]
+  · intro h
+    have h2 : (2 : K) ≠ 0 := two_ne_zero
+    field_simp at h
+    exact h
+
+/-- **C20 (constant pi)**: `pi` denotes π radians, and two of them a full turn. -/
+theorem angle_pi : radians π (pi : Angle K) = π ∧ radians π (add pi pi) = 2 * π := by
+  unfold radians pi add
+  constructor <;> field_simp <;> ring
+
+/-! Non-vacuity over ℚ with π := 22/7 (any non-zero element will do). -/
+example : radians (22 / 7 : ℚ) (add ⟨1 / 2⟩ ⟨1 / 4⟩) = 3 / 4 * (22 / 7) := by
+  norm_num [radians, add]
+example : truediv (⟨1⟩ : Angle ℚ) 4 = some ⟨1 / 4⟩ ∧ truediv (⟨1⟩ : Angle ℚ) 0 = none := by
+  constructor <;> simp [truediv]
+example : eq (⟨1 / 2⟩ : Angle ℚ) ⟨2 / 4⟩ = true := by
+  simp [eq]; norm_num
+
+end GuppyVerif.Angle
